@@ -284,6 +284,9 @@ async def execute(gen, ops, w: SockWorld, run: Run, counters=None):
                 run.sends.append(rec)
                 return do_send(msg, rec, pol)
             (w.on_connect_hooks if o == "on_connect_send" else w.on_disconnect_hooks).append(hook)
+        elif o == "slow_conn":
+            # the next connected=True notification takes op[1] seconds in a subscriber
+            w.conn_delays.append(op[1])
         elif o == "sub_raise":
             if op[1] == "msg":
                 w.raise_in_msg_sub = bool(op[2])
@@ -346,6 +349,7 @@ def run_script(gen, ops, *, tail=None, open_first=True, settle=40.0, debug=False
         # (subscriber hooks that never fired must not fire on the harness's own final close)
         w.on_connect_hooks.clear()
         w.on_disconnect_hooks.clear()
+        w.conn_delays.clear()
         await _guarded(w, run, "close", w.sock.close())
         await quiesce(loop)
         return True
